@@ -39,6 +39,16 @@ def inputs(chk):
     single = [b for b in base if len(b[1]) == 1]
     for name, files in (multi[:nvalid // 2] + single[:nvalid - nvalid // 2]):
         progs.append((name, files))
+    # programs whose object file holds comptime data with bytes that belong to no value (padding,
+    # the space behind the active variant of a sum type), and generated programs of tools/capygen.py
+    d = os.path.join(os.path.dirname(os.path.abspath(__file__)), "..", "c21_inputs")
+    for f in sorted(os.listdir(d)):
+        progs.append(("c21_inputs/" + f, {"main.capy": open(os.path.join(d, f)).read()}))
+    import capygen
+    from props import c08
+    for k in range(6 if chk.tier == "quick" else 60):
+        text = c08.prelude() + capygen.Render().program(capygen.Gen(chk.seed * 2111 + 21000 + k, size=10 + k % 8).program())
+        progs.append(("capygen:%d" % k, {"main.capy": text}))
     for k in range(ninvalid):
         name, files = rng.choice(base)
         files = dict(files)
@@ -122,7 +132,8 @@ def run(chk):
     chk.cov["evaluations"] = len(recs)
     chk.cov["distinct_nontrivial"] = len({r["input"] for r in recs})
     chk.cov["inputs_with_object"] = nobj
-    chk.cov["rule"] = ("corpus programs (examples, test sources; several files where the test has them) and "
+    chk.cov["rule"] = ("corpus programs (examples, test sources; several files where the test has them), programs with "
+                       "comptime data that contains padding / inactive payload bytes, generated programs (capygen) and "
                        "token-mutated (mostly invalid) versions; each compiled 4-6 times: three fresh processes, "
                        "after an unrelated program in the same process, other files pre-registered in reverse / "
                        "forward order; a history of (input, object hash, diagnostics hash)")
